@@ -27,6 +27,8 @@ def spec_check_wf(env, anns, obs):
             lo = G.oracle(env, strict_head=False)
             if tuple(lo["unfold"]) == tuple(TS.unfolds(obs)):
                 return "known", "F15"
+        if c == "OK" and TS.F20 in TS.known_ids(PROP) and TS.f20_shaped(env, obs):
+            return "known", "F20"
         return "violation", "verdict %s but the independent checker says %s %s" % (
             c, "well-formed" if o["ok"] else "ill-formed", sorted(o["reasons"]))
     if c == "OK":
@@ -107,8 +109,7 @@ def run(b, ps, tier, seed):
     violations += v2
     v3, ncorpus = TS.corpus_check(b, PROP, "wf", TS.proj_c10)
     violations += v3
-    if kn + kn2:
-        known.append(TS.known_line(PROP, kn + kn2, kex or kex2))
+    known, nknown, known_seen = TS.known_lines(PROP, kn, kn2)
     if impl and cnt.get("parse-err", 0) + (cnt2.get("class:PARSE-ERR", 0) if cnt2 else 0) > 0:
         violations.append(C.Violation("generated type environments no longer parse (%d texts): the suite does not exercise the property" % cnt.get("parse-err", 0),
                                       {"property": PROP, "kind": "unproven", "no_longer_checks": [{"what": "generator typegen.py vs the grammar", "detail": "PARSE-ERR on generated text"}]},
@@ -128,7 +129,8 @@ def run(b, ps, tier, seed):
         "wf_counters": dict(cnt) if cnt else {},
         "wfann_counters": dict(cnt2) if cnt2 else {},
         "corpus_cases": ncorpus,
-        "known_finding_cases": kn + kn2,
+        "known_finding_cases": nknown,
+        "known_findings_seen": known_seen,
     }
     return {"violations": violations, "known": known, "coverage": cov,
             "assumptions": [
